@@ -384,6 +384,13 @@ func runC06(a vh.Args, o *vh.Oracle, r *vh.Result) error {
 		if c.Level == "cli" {
 			return c06CLIReplay(a, r, &c)
 		}
+		if c.Level == "library-io" || c.Level == "cli-io" {
+			var ic c06IOCase
+			if err := readJSON(a.Replay, &ic); err != nil {
+				return err
+			}
+			return c06IOCheck(a, r, &ic)
+		}
 		if c.Level == "cli-multi" {
 			var mc c06MultiCase
 			if err := readJSON(a.Replay, &mc); err != nil {
@@ -548,6 +555,9 @@ func runC06(a vh.Args, o *vh.Oracle, r *vh.Result) error {
 		return err
 	}
 	if err := c06Multis(a, r, rng); err != nil {
+		return err
+	}
+	if err := c06IOs(a, r, rng); err != nil {
 		return err
 	}
 	return c06CLI(a, r, rng)
